@@ -136,9 +136,9 @@ PROPS = {
                            'Tie: hist correspondence on taint-adding and taint-removing updates; the same predicate monitored on observed journals.',
                 level_note=LEVEL_NOTE),
     'C04': dict(level='proof', module='EscProofs.P.C04',
-                streams=dict(quick=[('scenario', ['-dir', '@ROOT/corpus/C04']), ('hist', ['-n', 400, '-scans', 10]), ('awsops', ['-n', 2000]), ('fleetops', ['-n', 96]), ('hist', ['-n', 8, '-scans', 6, '-focus', 'fleet'])],
-                             thorough=[('scenario', ['-dir', '@ROOT/corpus/C04']), ('hist', ['-n', 20000, '-scans', 12]), ('awsops', ['-n', 100000]), ('fleetops', ['-n', 1600]), ('hist', ['-n', 200, '-scans', 8, '-focus', 'fleet'])],
-                             search=[('hist', ['-n', 1500, '-scans', 12]), ('awsops', ['-n', 20000]), ('fleetops', ['-n', 300]), ('hist', ['-n', 40, '-scans', 8, '-focus', 'fleet'])]),
+                streams=dict(quick=[('scenario', ['-dir', '@ROOT/corpus/C04']), ('hist', ['-n', 400, '-scans', 10]), ('hist', ['-n', 250, '-scans', 10, '-focus', 'up']), ('awsops', ['-n', 2000]), ('fleetops', ['-n', 96]), ('hist', ['-n', 8, '-scans', 6, '-focus', 'fleet'])],
+                             thorough=[('scenario', ['-dir', '@ROOT/corpus/C04']), ('hist', ['-n', 20000, '-scans', 12]), ('hist', ['-n', 10000, '-scans', 12, '-focus', 'up']), ('awsops', ['-n', 100000]), ('fleetops', ['-n', 1600]), ('hist', ['-n', 200, '-scans', 8, '-focus', 'fleet'])],
+                             search=[('hist', ['-n', 1500, '-scans', 12]), ('hist', ['-n', 1500, '-scans', 12, '-focus', 'up']), ('awsops', ['-n', 20000]), ('fleetops', ['-n', 300]), ('hist', ['-n', 40, '-scans', 8, '-focus', 'fleet'])]),
                 aspects=['hist:resize', 'cached-desired'], monitors=['C04'],
                 theorems=['Esc.P.C04_bound', 'Esc.P.C04_clamp_exact', 'Esc.P.C04_history'],
                 technique='Lean 4 theorem (walk of the journal with the running desired size; exact characterisation of IncreaseSize requests) + differential correspondence and runtime monitor',
@@ -301,9 +301,9 @@ PROPS = {
                 level_note=LEVEL_NOTE + ' Quantity parsing (resource.Quantity strings) is outside the model: the harness feeds integer milli-CPU / byte values.',
                 assumptions=['resource amounts are non-negative and sums stay within int64', 'quantities are whole millicores / whole bytes']),
     'C14': dict(level='proof', module='EscProofs.P.C14',
-                streams=dict(quick=[('filters', []), ('hist', ['-n', 150, '-scans', 8, '-focus', 'multi'])],
-                             thorough=[('filters', []), ('hist', ['-n', 8000, '-scans', 12, '-focus', 'multi'])],
-                             search=[('filters', []), ('hist', ['-n', 1000, '-scans', 12, '-focus', 'multi'])]),
+                streams=dict(quick=[('filters', []), ('hist', ['-n', 150, '-scans', 8, '-focus', 'multi']), ('hist', ['-n', 300, '-scans', 10])],
+                             thorough=[('filters', []), ('hist', ['-n', 8000, '-scans', 12, '-focus', 'multi']), ('hist', ['-n', 10000, '-scans', 12])],
+                             search=[('filters', []), ('hist', ['-n', 1000, '-scans', 12, '-focus', 'multi']), ('hist', ['-n', 1500, '-scans', 12])]),
                 aspects=['affinity', 'default', 'match', 'bad-case'], monitors=['C14'],
                 decisive={'affinity': 'Esc.P.C14_pod: the model filter is equivalent to the documented pod attribution rule',
                           'default': 'Esc.P.C14_default: the model filter is equivalent to the documented default-group rule',
